@@ -28,6 +28,7 @@ type unroller struct {
 	n        int
 	stuck    string // why the unrolled form does not exist ("" = it does)
 	unknowns int
+	partial  int // for_each values that are known but not wholly known (marks aside)
 }
 
 func (u *unroller) evalCtx() *hcl.EvalContext {
@@ -77,6 +78,9 @@ func (u *unroller) items(items []gItem, scope map[string]string, ind string, b *
 			if !ok {
 				u.stuck = "for_each-error"
 				return
+			}
+			if uv, _ := v.Unmark(); uv.IsKnown() && !uv.IsNull() && uv.CanIterateElements() && !uv.IsWhollyKnown() {
+				u.partial++
 			}
 			if v.IsMarked() {
 				uv, _ := v.Unmark()
@@ -305,6 +309,15 @@ func runOracle(c *genCase, text string, rep *hv.Report) []oracleResult {
 	u := &unroller{ectx: c.ECtx, bindings: map[string]cty.Value{}}
 	var ub strings.Builder
 	u.items(c.Items, map[string]string{}, "", &ub, true)
+	if u.partial > 0 {
+		// known collections containing unknown values: they expand like any known one
+		rep.Hist("for_each:partially-unknown(cases)")
+		rep.Histogram["for_each:partially-unknown(evaluations)"] += u.partial
+		if u.stuck == "" {
+			rep.Hist("oracle:unroll-applies(partially unknown for_each)")
+		}
+	}
+	expansionShapeOracle(c, obs1, conf, rep, fail)
 	switch {
 	case u.stuck != "":
 		rep.Hist("oracle:unroll-n/a:" + u.stuck)
